@@ -1245,6 +1245,99 @@ def _plain_local_annotations(fn: ast.FunctionDef) -> int:
     return done
 
 
+def _update_calls_as_stores(fn: ast.FunctionDef) -> int:
+    """`d.update({"a": x, "b": y})` (or of a local bound once to such a literal and used only there) is `d["a"] = x; d["b"] = y`
+    when no value mentions d."""
+    done = 0
+    for body in _bodies(fn):
+        pos = 0
+        while pos < len(body):
+            st = body[pos]
+            if not (isinstance(st, ast.Expr) and isinstance(st.value, ast.Call) and isinstance(st.value.func, ast.Attribute) and st.value.func.attr == "update"
+                    and isinstance(st.value.func.value, ast.Name) and len(st.value.args) == 1 and not st.value.keywords):
+                pos += 1
+                continue
+            d = st.value.func.value.id
+            arg = st.value.args[0]
+            lit, drop = None, None
+            if isinstance(arg, ast.Dict):
+                lit = arg
+            elif isinstance(arg, ast.Name):
+                occ = [n for n in ast.walk(fn) if isinstance(n, ast.Name) and n.id == arg.id]
+                defs = [b for b in body[:pos] if isinstance(b, ast.Assign) and len(b.targets) == 1 and isinstance(b.targets[0], ast.Name)
+                        and b.targets[0].id == arg.id and isinstance(b.value, ast.Dict)]
+                if len(occ) == 2 and len(defs) == 1 and not (_stored_names(body[body.index(defs[0]) + 1:pos]) & _loaded_names(defs[0].value)):
+                    lit, drop = defs[0].value, defs[0]
+            if lit is None or not lit.keys or any(k is None or not (isinstance(k, ast.Constant) and isinstance(k.value, str)) for k in lit.keys) \
+                    or any(d in _loaded_names(v) for v in lit.values):
+                pos += 1
+                continue
+            stores = [ast.copy_location(ast.Assign(targets=[ast.Subscript(value=ast.Name(id=d, ctx=ast.Load()), slice=ast.Constant(k.value), ctx=ast.Store())],
+                                                   value=_copy(v)), st) for k, v in zip(lit.keys, lit.values)]
+            body[pos:pos + 1] = stores
+            if drop is not None:
+                body.remove(drop)
+                pos -= 1
+            pos += len(stores)
+            done += 1
+    return done
+
+
+def _element_aliases(fn: ast.FunctionDef) -> int:
+    """`rec = table[i]` with rec bound once, only ever subscripted (`rec["f"]`, `rec["f"] = v`), and neither `table` nor `i` rebound
+    while rec is in use: rec IS table[i] (an element view) - every `rec[...]` is `table[i][...]`."""
+    done = 0
+    for body in _bodies(fn):
+        for st in list(body):
+            if not (isinstance(st, ast.Assign) and len(st.targets) == 1 and isinstance(st.targets[0], ast.Name) and isinstance(st.value, ast.Subscript)
+                    and isinstance(st.value.value, ast.Name) and isinstance(st.value.slice, (ast.Name, ast.Constant))):
+                continue
+            v = st.targets[0].id
+            occ = [n for n in ast.walk(fn) if isinstance(n, ast.Name) and n.id == v]
+            if sum(isinstance(n.ctx, ast.Store) for n in occ) != 1:
+                continue
+            uses = [n for n in ast.walk(fn) if isinstance(n, ast.Subscript) and isinstance(n.value, ast.Name) and n.value.id == v]
+            if len(uses) + 1 != len(occ) or not uses or not any(isinstance(u.ctx, ast.Store) for u in uses):
+                continue      # only element views that are written through (plain read temporaries are the expansion's business)
+            later = body[body.index(st) + 1:]
+            fixed = {st.value.value.id} | ({st.value.slice.id} if isinstance(st.value.slice, ast.Name) else set())
+            if any(isinstance(n, ast.Name) and n.id in fixed and isinstance(n.ctx, (ast.Store, ast.Del)) for b in later for n in ast.walk(b)):
+                continue
+            if any(not any(u is n for b in later for n in ast.walk(b)) for u in uses):
+                continue      # a use outside this block
+            for u in uses:
+                u.value = ast.Subscript(value=ast.Name(id=st.value.value.id, ctx=ast.Load()), slice=_copy(st.value.slice), ctx=ast.Load())
+            body.remove(st)
+            done += 1
+    return done
+
+
+def _fold_list_building(fn: ast.FunctionDef) -> int:
+    """`L = [a]` directly followed by `L.append(b)` / `L.extend(xs)` (arguments not mentioning L) is `L = [a, b]` / `L = [a, *xs]`."""
+    done = 0
+    for body in _bodies(fn):
+        pos = 0
+        while pos + 1 < len(body):
+            st, nx = body[pos], body[pos + 1]
+            if (isinstance(st, ast.Assign) and len(st.targets) == 1 and isinstance(st.targets[0], ast.Name) and isinstance(st.value, ast.List)
+                    and isinstance(nx, ast.Expr) and isinstance(nx.value, ast.Call) and isinstance(nx.value.func, ast.Attribute)
+                    and isinstance(nx.value.func.value, ast.Name) and nx.value.func.value.id == st.targets[0].id
+                    and nx.value.func.attr in ("append", "extend") and len(nx.value.args) == 1 and not nx.value.keywords
+                    and st.targets[0].id not in _loaded_names(nx.value.args[0])):
+                arg = nx.value.args[0]
+                if nx.value.func.attr == "append":
+                    st.value.elts.append(arg)
+                else:
+                    if isinstance(arg, ast.GeneratorExp):
+                        arg = ast.copy_location(ast.ListComp(elt=arg.elt, generators=arg.generators), arg)
+                    st.value.elts.append(ast.Starred(value=arg, ctx=ast.Load()))
+                del body[pos + 1]
+                done += 1
+                continue
+            pos += 1
+    return done
+
+
 def apply(tree: ast.Module, module: str = "") -> list[str]:
     """Dissolve transparent helpers of `tree` into their callers (in place). -> names inlined (one per call site)."""
     if _has_walrus(tree):
@@ -1261,6 +1354,9 @@ def apply(tree: ast.Module, module: str = "") -> list[str]:
         if isinstance(n, ast.FunctionDef):
             aliases += _coalesce_result_copies(n)
             aliases += _plain_local_annotations(n)
+            aliases += _element_aliases(n)
+            aliases += _fold_list_building(n)
+            aliases += _update_calls_as_stores(n)
             aliases += _fold_dict_stores(n)
             aliases += _splat_literal_dicts(n)
             aliases += _iterator_temporaries(n)
